@@ -39,13 +39,13 @@ func vpH_C11_SoftIff_Precision() { vpSoftIff(1, 2, 0, true) }
 
 //vp:prop C11
 //vp:tier thorough
-//vp:bounds all soft rules together: inputs 1..2, outputs 1..2, 2 distribution addresses with 0..2 unlocked, precision free 0..6
+//vp:bounds all soft rules together: inputs 1..2, 1 output, 1 distribution address locked or unlocked, precision free 0..6 (the 2 x 2 x 2 combination did not finish in 50 minutes)
 //vp:assume Address.String is an injective function of (Version, Key) (base58 text form; exactness of base58 is C15)
 //vp:assume UxOut.CoinHours summarised by its contract (deterministic; value or error); the real function is checked against the formula by C31 for all values
 //vp:rule (*github.com/skycoin/skycoin/src/coin.UxOut).CoinHours model:vpModelCoinHours
 //vp:rule (github.com/skycoin/skycoin/src/cipher.Address).String uf:addrstr:inj:len=34
 //vp:noreplay Address.String and CoinHours are abstracted
-func vpH_C11_SoftIff_All() { vpSoftIff(2, 2, 2, true) }
+func vpH_C11_SoftIff_All() { vpSoftIff(2, 1, 1, true) }
 
 func vpSoftIff(maxIn, maxOut, nDist int, precFree bool) {
 	nIn, nOut := vpLen("nIn", 1, maxIn), vpLen("nOut", 1, maxOut)
